@@ -450,6 +450,24 @@ def r02_6_side_constraints(repo: Repo, rep: Report):
 COMPLEMENT = {"ULT": "UGE", "UGE": "ULT", "ULE": "UGT", "UGT": "ULE"}
 
 
+def funds_early_exit(repo: Repo, rep: Report, rid: str):
+    """round 7: handle_insufficient_fund_case may leave without forking the failing branch only because the value is
+    zero - every `return` in it is guarded by tests over the transferred value alone (the EVM requires the balance
+    even for a transfer to oneself, and for CALLCODE)"""
+    m, hi = repo.fn("sevm.SEVM.handle_insufficient_fund_case")
+    n = 0
+    for r in body_walk(hi):
+        if not isinstance(r, ast.Return):
+            continue
+        n += 1
+        gs = guards_at(m, r)
+        names = {x.id for t, _ in gs for x in ast.walk(t) if isinstance(x, ast.Name)}
+        ok = bool(gs) and names <= {"value", "ZERO"}
+        rep.check(rid, ok, m, r, f"handle_insufficient_fund_case: early return under {sorted(guard_text(t, p) for t, p in gs)}", "the insufficient-funds branch may be skipped only for a zero value (not by sender/target, opcode or any other test)")
+    if n == 0:
+        rep.check(rid, True, m, hi, "handle_insufficient_fund_case: no early return", "")
+
+
 def r02_7_complement_pairs(repo: Repo, rep: Report):
     rep.rule("R02.7", "conditions that split a path are syntactic complements over the same operands")
     m, hi = repo.fn("sevm.SEVM.handle_insufficient_fund_case")
@@ -473,6 +491,7 @@ def r02_7_complement_pairs(repo: Repo, rep: Report):
         rep.check("R02.7", ok, m, his[0] if his else fn, f"{q}: handle_insufficient_fund_case({src(his[0].args[0]) if his else '?'}, {src(his[0].args[1]) if his else '?'}) / transfer_value(.., same caller, .., same value)", "the two sides of the funds split use different operands")
         if his and tvs:
             rep.check("R02.7", his[0].lineno < min(t.lineno for t in tvs), m, his[0], f"{q}: insufficient-funds branch is forked before the balance is assumed sufficient", "the failing branch must be created before balance_cond is appended to the path")
+    funds_early_exit(repo, rep, "R02.7")
     # the failing branch pushes 0 and is pushed on the worklist
     body_txt = " ; ".join(src(s) for s in ast.walk(hi) if isinstance(s, ast.Expr))
     ok = "fail_ex.st.push(ZERO)" in body_txt and "stack.push(fail_ex)" in body_txt and "fail_ex.advance()" in body_txt
